@@ -460,6 +460,9 @@ func (c *Ctx) opsxRun() []*opsVerdict {
 					v.runs++
 					outs, convs := h.runOp(op, t1, t2, "x", "y", true)
 					where := fmt.Sprintf("%s.%s(%s x, %s y)", manager, op, t1, t2)
+					if t1 == "Integer" || t1 == "String" {
+						noteSample("OPS.model/"+op, where)
+					}
 					if unary {
 						where = fmt.Sprintf("%s.%s(%s x)", manager, op, t1)
 					}
